@@ -274,6 +274,159 @@ func (x *hs) removeUserFiles() error {
 	return nil
 }
 
+// loginClass sends LOGIN (password as a literal) on a fresh connection and reports the class of the answer and whether the
+// connection is authenticated afterwards (LIST answers OK).
+func loginClass(addr, name string, pass []byte) (string, bool, error) {
+	c, err := imapc.Dial(addr)
+	if err != nil {
+		return "", false, err
+	}
+	defer c.Close()
+	c.Timeout = 30 * time.Second
+	r, err := c.CmdParts([]string{"LOGIN " + imapc.Quote(name) + " ", ""}, [][]byte{pass})
+	if err != nil {
+		return "closed", false, nil
+	}
+	auth := false
+	if r2, err2 := c.Cmd(`LIST "" "*"`); err2 == nil && r2.Status == "OK" {
+		auth = true
+	}
+	return r.Status, auth, nil
+}
+
+// removeUserFailing: RemoveUser(id, removeFiles=true) whose removal of the database files fails (a regular file sits where
+// the deferred-delete directory has to be created; a full or read-only disk does the same).  The user has been shut
+// down whatever became of its files: none of its credentials - the old password, the empty one - may open a session,
+// and the other users go on.  Once with the harness' connector (which keeps answering Authorize after Close, as a
+// connector backed by a remote service would) and once with connector.Dummy (which forgets its password on Close).
+func (x *hs) removeUserFailing() error {
+	ctx, res := x.ctx, x.ctx.Res
+	attempts := func(canon, addr, name, oldPass string) error {
+		for _, a := range []struct {
+			what string
+			pass []byte
+		}{{"old-password", []byte(oldPass)}, {"empty-password", nil}, {"wrong-password", []byte("wrong")}} {
+			status, auth, err := loginClass(addr, name, a.pass)
+			if err != nil {
+				return err
+			}
+			res.Evaluations++
+			res.Count("removed-user-logins")
+			if status == "OK" || auth {
+				res.Fail(canon+" result=removed-user-authenticates credentials="+a.what,
+					fmt.Sprintf("after RemoveUser (file removal failing) LOGIN %s with the %s was answered %s, authenticated=%v", name, a.what, status, auth), a.what)
+			}
+		}
+		return nil
+	}
+	// ---- the harness' connector ----
+	for _, failing := range []bool{true, false} {
+		canon := fmt.Sprintf("remove-user file-removal-fails=%v connector=harness", failing)
+		ctx.Current(canon, nil)
+		dir, err := os.MkdirTemp("", "verif-c18-rmfail-*")
+		if err != nil {
+			return err
+		}
+		us := mkIDUsers([]string{"gone", "stays"})
+		s, err := startIDs(dir, us)
+		if err != nil {
+			return err
+		}
+		for _, u := range us {
+			if what, err := populate(s, u); err != nil || what != "" {
+				stopBounded(s)
+				return fmt.Errorf("remove-user scenario setup: %v %v", what, err)
+			}
+		}
+		if failing {
+			if err := os.WriteFile(dir+"/db/deferred_delete", []byte("in the way"), 0o600); err != nil {
+				stopBounded(s)
+				return err
+			}
+		}
+		rctx, cancel := context.WithTimeout(context.Background(), 60*time.Second)
+		rerr := s.S.RemoveUser(rctx, "gone", true)
+		cancel()
+		s.Opts.Users = s.Opts.Users[1:] // the harness does not remove this user a second time when it stops the server
+		res.Count(fmt.Sprintf("remove-user-error=%v", rerr != nil))
+		if err := attempts(canon, s.Addr, us[0].name, us[0].pass); err != nil {
+			stopBounded(s)
+			return err
+		}
+		if err := x.checkOwn(s, us[1], canon+" result=other-user-affected", "after RemoveUser of the other user"); err != nil {
+			stopBounded(s)
+			return err
+		}
+		res.Nontrivial(canon)
+		// a server that kept the shut-down user registered may not survive its own Close: keep what has been found
+		_ = res.Write(ctx.Out)
+		stopBounded(s)
+		os.RemoveAll(dir)
+	}
+	// ---- connector.Dummy ----
+	canon := "remove-user file-removal-fails=true connector=dummy"
+	ctx.Current(canon, nil)
+	dir, err := os.MkdirTemp("", "verif-c18-rmfail-dummy-*")
+	if err != nil {
+		return err
+	}
+	defer os.RemoveAll(dir)
+	g, err := gluon.New(gluon.WithDataDir(dir+"/store"), gluon.WithDatabaseDir(dir+"/db"), gluon.WithLoginJailTime(0))
+	if err != nil {
+		return err
+	}
+	bg, cancel := context.WithCancel(context.Background())
+	defer cancel()
+	fl := imap.NewFlagSet(imap.FlagSeen, imap.FlagFlagged, imap.FlagDeleted)
+	for i, u := range []struct{ name, pass string }{{"gone", "PassWord1"}, {"stays", "OtherPw2"}} {
+		conn := connector.NewDummy([]string{u.name}, []byte(u.pass), time.Hour, fl, fl, imap.NewFlagSet())
+		if _, err := g.LoadUser(bg, conn, fmt.Sprintf("dummy-rm-%d", i), []byte(u.pass)); err != nil {
+			return fmt.Errorf("LoadUser(dummy): %w", err)
+		}
+	}
+	l, err := net.Listen("tcp", "127.0.0.1:0")
+	if err != nil {
+		return err
+	}
+	if err := g.Serve(bg, l); err != nil {
+		return err
+	}
+	defer func() {
+		done := make(chan struct{})
+		go func() {
+			c2, cancel2 := context.WithTimeout(context.Background(), 20*time.Second)
+			defer cancel2()
+			_ = g.Close(c2)
+			close(done)
+		}()
+		select {
+		case <-done:
+		case <-time.After(25 * time.Second):
+		}
+		l.Close()
+	}()
+	if err := os.WriteFile(dir+"/db/deferred_delete", []byte("in the way"), 0o600); err != nil {
+		return err
+	}
+	rctx, rcancel := context.WithTimeout(context.Background(), 60*time.Second)
+	rerr := g.RemoveUser(rctx, "dummy-rm-0", true)
+	rcancel()
+	res.Count(fmt.Sprintf("remove-user-error=%v", rerr != nil))
+	if err := attempts(canon, l.Addr().String(), "gone", "PassWord1"); err != nil {
+		return err
+	}
+	status, auth, err := loginClass(l.Addr().String(), "stays", []byte("OtherPw2"))
+	if err != nil {
+		return err
+	}
+	res.Evaluations++
+	if status != "OK" || !auth {
+		res.Fail(canon+" result=other-user-affected", fmt.Sprintf("LOGIN of the user that was not removed: %s authenticated=%v", status, auth), nil)
+	}
+	res.Nontrivial(canon)
+	return nil
+}
+
 // ---- connector.Dummy ----
 func (x *hs) dummyCredentials() error {
 	ctx, res := x.ctx, x.ctx.Res
